@@ -1,4 +1,933 @@
-//! C06: harness domain (stub).
+//! C06: receiving delivers each peer message exactly once, in order, and survives junk.
+//!
+//! Drives the REAL `Connection::receive_message` and `Connection::receive_message_from_read_half` over a loopback socket
+//! against the scripted peer (peer.rs), one fresh connection per frame history.
+//!
+//!   T c06recv <conn|rh> <oracle> <frames>                      the results the real API returned for the history vs. the Lean
+//!                                                               model (lean/EdpVerif/Impl/Recv.lean)
+//!   P c06oracle <conn|rh> <pt|hdr> <oracle> <frames> <results> the reference receiver of Spec/Peer.lean reads the same frames
+//!                                                               by the protocol and judges the real results
+//!   P c06form …                                                 the frames the peer sent are the frames Spec/Peer.lean part 1
+//!                                                               builds from the terms' bytes (ties the theorems' frame
+//!                                                               builders to real bytes)
+//!   X c06-panic / c06-timeout / c06-connect                     the harness itself saw the receive task die / hang
+//!
+//! Failure classes: `gen`; `kf-c06-multi-fragment-order` (a message in two or more fragments comes out scrambled because
+//! the assembler concatenates by ascending fragment id — recorded known finding, see notes/C06.md).
+use crate::canon::{hex, term_text};
+use crate::oracle::oracle_for;
+use crate::peer::*;
+use crate::rng::Rng;
+use crate::tgen::{gen_pid, gen_ref, gen_term, Cfg};
 use crate::Ctx;
+use edp_client::{Connection, ConnectionConfig, DistributionFlags, Error};
+use erltf::types::Atom;
+use erltf::OwnedTerm;
+use std::sync::{Arc, Mutex};
+use std::time::Duration;
+use tokio::io::{AsyncReadExt, AsyncWriteExt};
+use tokio::net::TcpListener;
 
-pub fn run(_ctx: &mut Ctx) {}
+#[derive(Clone, Copy, PartialEq, Debug)]
+enum Api {
+    Conn,
+    Rh,
+}
+
+#[derive(Clone, Copy, PartialEq, Debug)]
+enum Mode {
+    Pt,
+    Hdr,
+}
+
+impl Api {
+    fn word(self) -> &'static str {
+        match self {
+            Api::Conn => "conn",
+            Api::Rh => "rh",
+        }
+    }
+}
+impl Mode {
+    fn word(self) -> &'static str {
+        match self {
+            Mode::Pt => "pt",
+            Mode::Hdr => "hdr",
+        }
+    }
+}
+
+fn frames_word(frames: &[Vec<u8>]) -> String {
+    if frames.is_empty() {
+        return "-".to_string();
+    }
+    frames.iter().map(|f| if f.is_empty() { "-".to_string() } else { hex(f) }).collect::<Vec<_>>().join(",")
+}
+
+fn results_word(r: &[String]) -> String {
+    if r.is_empty() { "-".to_string() } else { r.join("/") }
+}
+
+/// external-call table for a whole history: every frame, plus the bodies in sending order and in reverse (what a
+/// reassembly may put next to each other)
+fn history_oracle(frames: &[Vec<u8>]) -> Option<String> {
+    let mut entries: Vec<String> = vec![];
+    let mut add = |b: &[u8]| -> bool {
+        match oracle_for(b) {
+            None => false,
+            Some(s) => {
+                if s != "-" {
+                    for e in s.split(';') {
+                        entries.push(e.to_string());
+                    }
+                }
+                true
+            }
+        }
+    };
+    let all: Vec<u8> = frames.iter().flatten().copied().collect();
+    let rev: Vec<u8> = frames.iter().rev().flatten().copied().collect();
+    if !add(&all) || !add(&rev) {
+        return None;
+    }
+    entries.sort();
+    entries.dedup();
+    Some(if entries.is_empty() { "-".to_string() } else { entries.join(";") })
+}
+
+/// One history against the real code. Returns what the successive receive calls returned.
+async fn run_history(
+    listener: &Arc<TcpListener>,
+    case: usize,
+    api: Api,
+    mode: Mode,
+    frames: &[Vec<u8>],
+    cuts: Option<Vec<usize>>,
+) -> Vec<String> {
+    let mut pcfg = PeerCfg::new("c06peer@127.0.0.1", "secret");
+    if mode == Mode::Hdr {
+        pcfg.flags |= 0x2000 | 0x800_0000;
+    }
+    let l2 = listener.clone();
+    let frames2: Vec<Vec<u8>> = frames.to_vec();
+    let peer = tokio::spawn(async move {
+        let Some(mut p) = accept_and_handshake(&l2, &pcfg).await else { return false };
+        let mut stream = vec![];
+        for f in &frames2 {
+            stream.extend_from_slice(&(f.len() as u32).to_be_bytes());
+            stream.extend_from_slice(f);
+        }
+        match cuts {
+            Some(c) => p.send_chunked(&stream, &c).await,
+            None => {
+                let _ = p.stream.write_all(&stream).await;
+                let _ = p.stream.flush().await;
+            }
+        }
+        // end of stream for the client; then wait for it to hang up
+        let _ = p.stream.shutdown().await;
+        let mut sink = [0u8; 64];
+        let _ = tokio::time::timeout(Duration::from_secs(5), p.stream.read(&mut sink)).await;
+        true
+    });
+    let mut flags = DistributionFlags::default().as_u64();
+    if mode == Mode::Hdr {
+        flags |= 0x2000;
+    }
+    let timeout = Duration::from_millis(2500);
+    let cfg = ConnectionConfig::new(format!("c06cli{}@127.0.0.1", case), "c06peer@127.0.0.1", "secret")
+        .with_flags(DistributionFlags::new(flags))
+        .with_timeout(timeout);
+    let results: Arc<Mutex<Vec<String>>> = Arc::new(Mutex::new(vec![]));
+    let r2 = results.clone();
+    let limit = frames.len() + 2;
+    let client = tokio::spawn(async move {
+        let push = |s: String| r2.lock().unwrap().push(s);
+        let mut conn = Connection::new(cfg);
+        if conn.connect().await.is_err() {
+            push("connect-failed".into());
+            return;
+        }
+        if mode == Mode::Hdr {
+            let ok = conn.negotiated_flags().map(|f| f.as_u64() & 0x2000 != 0).unwrap_or(false);
+            if !ok {
+                push("header-mode-not-negotiated".into());
+                return;
+            }
+        }
+        let show = |r: Result<(edp_client::control::ControlMessage, Option<OwnedTerm>), Error>| -> Option<String> {
+            match r {
+                Ok((c, p)) => Some(format!(
+                    "ok~{}~{}",
+                    crate::c08::msg_text(&c),
+                    p.as_ref().map(term_text).unwrap_or("-".to_string())
+                )),
+                Err(Error::Io(_)) => None,
+                Err(Error::Timeout(_)) => Some("timeout".to_string()),
+                Err(Error::MessageTooLarge { .. }) => Some("too-large".to_string()),
+                Err(_) => Some("err".to_string()),
+            }
+        };
+        match api {
+            Api::Conn => {
+                for _ in 0..limit {
+                    match show(conn.receive_message().await) {
+                        None => break,
+                        Some(s) => {
+                            let stop = s == "timeout";
+                            push(s);
+                            if stop {
+                                break;
+                            }
+                        }
+                    }
+                }
+            }
+            Api::Rh => {
+                let Some(mut rh) = conn.take_read_half() else {
+                    push("no-read-half".into());
+                    return;
+                };
+                for _ in 0..limit {
+                    match show(Connection::receive_message_from_read_half(&mut rh, timeout).await) {
+                        None => break,
+                        Some(s) => {
+                            let stop = s == "timeout";
+                            push(s);
+                            if stop {
+                                break;
+                            }
+                        }
+                    }
+                }
+            }
+        }
+    });
+    let joined = client.await;
+    if let Err(e) = joined {
+        if e.is_panic() {
+            results.lock().unwrap().push("panic".to_string());
+        }
+    }
+    let _ = tokio::time::timeout(Duration::from_secs(6), peer).await;
+    let out = results.lock().unwrap().clone();
+    out
+}
+
+/* ------------------------------------------------------------------------------------------------------------------ */
+/* generators                                                                                                         */
+
+/// (tag, arity including the tag) of every operation the library has a structured variant for
+const OPS: &[(u8, usize)] = &[
+    (1, 3), (2, 3), (3, 4), (4, 3), (5, 1), (6, 4), (7, 3), (8, 4), (12, 4), (13, 5), (16, 5), (18, 5), (19, 4), (20, 4),
+    (21, 5), (22, 3), (23, 4), (24, 3), (25, 4), (26, 3), (27, 4), (28, 4), (29, 7), (30, 8), (31, 5), (32, 6), (33, 3),
+    (34, 4), (35, 4), (36, 4),
+];
+
+fn small_cfg() -> Cfg {
+    Cfg { max_depth: 2, wf: true, maps: true, local_ids: false, huge: false, funs: true }
+}
+
+fn gen_element(r: &mut Rng) -> OwnedTerm {
+    match r.below(6) {
+        0 | 1 => OwnedTerm::Pid(gen_pid(r, false)),
+        2 => OwnedTerm::Atom(Atom::new(*r.pick(&["", "ok", "normal", "rex", "kill", "noproc"]))),
+        3 => OwnedTerm::Reference(gen_ref(r, false, false)),
+        _ => gen_term(r, &small_cfg(), 1),
+    }
+}
+
+/// a control tuple: every operation the library knows (right arity), sometimes an unknown tag or an arity the table does
+/// not have (both come back as `Generic`)
+fn gen_control(r: &mut Rng, ctx_count: &mut Vec<String>) -> OwnedTerm {
+    let (tag, arity) = match r.below(12) {
+        0 => (*r.pick(&[0u8, 9, 10, 11, 14, 15, 17, 37, 38, 100, 255]), r.range(1, 5) as usize),
+        1 => {
+            let (t, a) = *r.pick(OPS);
+            (t, if a > 1 && r.chance(1, 2) { a - 1 } else { a + 1 })
+        }
+        _ => *r.pick(OPS),
+    };
+    ctx_count.push(format!("control_tag_{}", tag));
+    let mut v = vec![OwnedTerm::Integer(tag as i64)];
+    for i in 1..arity {
+        if (tag == 35 || tag == 36) && i == 1 && arity == 4 {
+            // the Id element: 0 ≤ id < 2^64, as an integer or (above i64::MAX) a bignum
+            let id = *r.pick(&[0u64, 1, 255, 256, 1 << 31, 1 << 32, (1 << 63) - 1, 1 << 63, u64::MAX]);
+            if id <= i64::MAX as u64 {
+                v.push(OwnedTerm::Integer(id as i64));
+            } else {
+                let mut d = id.to_le_bytes().to_vec();
+                while d.len() > 1 && *d.last().unwrap() == 0 {
+                    d.pop();
+                }
+                v.push(OwnedTerm::BigInt(erltf::types::BigInt::new(false, d)));
+            }
+        } else {
+            v.push(gen_element(r));
+        }
+    }
+    OwnedTerm::Tuple(v)
+}
+
+fn gen_payload(r: &mut Rng, big: bool) -> OwnedTerm {
+    if big {
+        // sizes up to multi-fragment: a binary well above one TCP segment
+        let n = *r.pick(&[1500usize, 4096, 70000]);
+        return OwnedTerm::Tuple(vec![OwnedTerm::Atom(Atom::new("blob")), OwnedTerm::Binary(r.bytes(n))]);
+    }
+    let c = Cfg { max_depth: 3, wf: true, maps: true, local_ids: r.chance(1, 4), huge: false, funs: true };
+    gen_term(r, &c, 0)
+}
+
+/// a valid message in pass-through form: (frame, control bytes without version, payload bytes without version)
+fn gen_pt_message(r: &mut Rng, big: bool, counts: &mut Vec<String>) -> (Vec<u8>, Vec<u8>, Option<Vec<u8>>) {
+    loop {
+        let control = gen_control(r, counts);
+        let payload = if big || r.chance(3, 5) { Some(gen_payload(r, big)) } else { None };
+        let Ok(cb) = erltf::encode(&control) else { continue };
+        let pb = match &payload {
+            Some(p) => match erltf::encode(p) {
+                Ok(b) => Some(b),
+                Err(_) => continue,
+            },
+            None => None,
+        };
+        let frame = pass_through(&control, payload.as_ref());
+        return (frame, cb[1..].to_vec(), pb.map(|b| b[1..].to_vec()));
+    }
+}
+
+/// Terms written directly as external-format bytes for header mode: atoms are references into the header under
+/// construction (or inline SMALL_ATOM_UTF8_EXT, which is legal too). Only modern tags.
+struct HGen {
+    atoms: Vec<Vec<u8>>,
+    /// at least one atom longer than 255 bytes forces the LongAtoms layout
+    allow_long: bool,
+}
+
+impl HGen {
+    fn atom(&mut self, r: &mut Rng, out: &mut Vec<u8>) {
+        let name: Vec<u8> = match r.below(10) {
+            0 => vec![],
+            1 => "kéks".as_bytes().to_vec(),
+            2 if self.allow_long && r.chance(1, 3) => vec![b'x'; 300],
+            3 => vec![b'y'; 255],
+            _ => r.pick(&["ok", "error", "a@h", "n@127.0.0.1", "rex", "true", "Elixir.Foo", "b"]).as_bytes().to_vec(),
+        };
+        if name.len() <= 255 && r.chance(1, 6) {
+            out.push(119);
+            out.push(name.len() as u8);
+            out.extend_from_slice(&name);
+            return;
+        }
+        let idx = match self.atoms.iter().position(|a| *a == name) {
+            Some(i) => i,
+            None => {
+                if self.atoms.len() >= 255 {
+                    0
+                } else {
+                    self.atoms.push(name);
+                    self.atoms.len() - 1
+                }
+            }
+        };
+        out.push(82);
+        out.push(idx as u8);
+    }
+    fn pid(&mut self, r: &mut Rng, out: &mut Vec<u8>) {
+        out.push(88);
+        self.atom(r, out);
+        out.extend_from_slice(&(r.next() as u32 & 0x0fff_ffff).to_be_bytes());
+        out.extend_from_slice(&(r.below(8192) as u32).to_be_bytes());
+        out.extend_from_slice(&(r.next() as u32).to_be_bytes());
+    }
+    fn reference(&mut self, r: &mut Rng, out: &mut Vec<u8>) {
+        let n = r.range(1, 5) as u16;
+        out.push(90);
+        out.extend_from_slice(&n.to_be_bytes());
+        self.atom(r, out);
+        out.extend_from_slice(&(r.next() as u32).to_be_bytes());
+        for _ in 0..n {
+            out.extend_from_slice(&(r.next() as u32).to_be_bytes());
+        }
+    }
+    fn term(&mut self, r: &mut Rng, depth: u32, out: &mut Vec<u8>) {
+        let leaf = depth >= 3 || r.chance(1, 2);
+        if leaf {
+            match r.below(12) {
+                0 => out.extend_from_slice(&[97, r.next() as u8]),
+                1 => {
+                    out.push(98);
+                    out.extend_from_slice(&(r.next() as u32).to_be_bytes());
+                }
+                2 => {
+                    let n = r.range(1, 9) as u8;
+                    out.extend_from_slice(&[110, n, r.below(2) as u8]);
+                    let mut d = r.bytes(n as usize);
+                    *d.last_mut().unwrap() |= 1;
+                    out.extend_from_slice(&d);
+                }
+                3 => {
+                    out.push(70);
+                    out.extend_from_slice(&f64::to_bits(*r.pick(&[0.0, -1.5, 1e300, 3.25])).to_be_bytes());
+                }
+                4 | 5 => self.atom(r, out),
+                6 => {
+                    let n = r.below(9) as u32;
+                    out.push(109);
+                    out.extend_from_slice(&n.to_be_bytes());
+                    out.extend_from_slice(&r.bytes(n as usize));
+                }
+                7 => out.push(106),
+                8 => {
+                    let n = r.range(1, 5) as u16;
+                    out.push(107);
+                    out.extend_from_slice(&n.to_be_bytes());
+                    out.extend_from_slice(&r.bytes(n as usize));
+                }
+                9 => self.pid(r, out),
+                10 => self.reference(r, out),
+                _ => {
+                    out.push(120);
+                    self.atom(r, out);
+                    out.extend_from_slice(&r.next().to_be_bytes());
+                    out.extend_from_slice(&(r.next() as u32).to_be_bytes());
+                }
+            }
+            return;
+        }
+        let n = r.below(4) as u32;
+        match r.below(4) {
+            0 => {
+                out.extend_from_slice(&[104, n as u8]);
+                for _ in 0..n {
+                    self.term(r, depth + 1, out);
+                }
+            }
+            1 => {
+                if n == 0 {
+                    out.push(106);
+                    return;
+                }
+                out.push(108);
+                out.extend_from_slice(&n.to_be_bytes());
+                for _ in 0..n {
+                    self.term(r, depth + 1, out);
+                }
+                if r.chance(1, 5) {
+                    out.extend_from_slice(&[97, 7]); // improper tail
+                } else {
+                    out.push(106);
+                }
+            }
+            2 => {
+                out.push(116);
+                out.extend_from_slice(&n.to_be_bytes());
+                for k in 0..n {
+                    out.extend_from_slice(&[97, k as u8]); // distinct keys
+                    self.term(r, depth + 1, out);
+                }
+            }
+            _ => {
+                out.push(105);
+                out.extend_from_slice(&n.to_be_bytes());
+                for _ in 0..n {
+                    self.term(r, depth + 1, out);
+                }
+            }
+        }
+    }
+    fn control(&mut self, r: &mut Rng, counts: &mut Vec<String>) -> Vec<u8> {
+        let (tag, arity) = if r.chance(1, 12) { (*r.pick(&[9u8, 40, 200]), r.range(1, 4) as usize) } else { *r.pick(OPS) };
+        counts.push(format!("control_tag_{}", tag));
+        let mut out = vec![104, arity as u8, 97, tag];
+        for i in 1..arity {
+            if (tag == 35 || tag == 36) && i == 1 {
+                match r.below(3) {
+                    0 => out.extend_from_slice(&[97, r.next() as u8]),
+                    1 => {
+                        out.push(98);
+                        out.extend_from_slice(&(r.next() as u32 & 0x7fff_ffff).to_be_bytes());
+                    }
+                    _ => {
+                        out.extend_from_slice(&[110, 8, 0]);
+                        let mut d = r.bytes(8);
+                        d[7] |= 0x80;
+                        out.extend_from_slice(&d);
+                    }
+                }
+                continue;
+            }
+            match r.below(4) {
+                0 | 1 => self.pid(r, &mut out),
+                2 => self.atom(r, &mut out),
+                _ => self.term(r, 1, &mut out),
+            }
+        }
+        out
+    }
+}
+
+/// `N, flags, refs…` with every reference a new entry whose internal index is its position; `segs[i]` is the segment
+fn header_bytes(atoms: &[Vec<u8>], segs: &[u8], long: bool) -> Vec<u8> {
+    let n = atoms.len();
+    if n == 0 {
+        return vec![0];
+    }
+    let mut out = vec![n as u8];
+    let mut nibbles: Vec<u8> = (0..n).map(|i| 8 | (segs[i] & 7)).collect();
+    nibbles.push(if long { 1 } else { 0 });
+    for pair in nibbles.chunks(2) {
+        out.push(pair[0] | (pair.get(1).copied().unwrap_or(0) << 4));
+    }
+    for (i, a) in atoms.iter().enumerate() {
+        out.push(i as u8);
+        if long {
+            out.extend_from_slice(&(a.len() as u16).to_be_bytes());
+        } else {
+            out.push(a.len() as u8);
+        }
+        out.extend_from_slice(a);
+    }
+    out
+}
+
+struct HMsg {
+    atoms: Vec<Vec<u8>>,
+    segs: Vec<u8>,
+    long: bool,
+    ctl: Vec<u8>,
+    pay: Option<Vec<u8>>,
+}
+
+impl HMsg {
+    fn header(&self) -> Vec<u8> {
+        header_bytes(&self.atoms, &self.segs, self.long)
+    }
+    fn terms(&self) -> Vec<u8> {
+        let mut t = self.ctl.clone();
+        if let Some(p) = &self.pay {
+            t.extend_from_slice(p);
+        }
+        t
+    }
+    fn frame(&self) -> Vec<u8> {
+        let mut f = vec![131, 68];
+        f.extend_from_slice(&self.header());
+        f.extend_from_slice(&self.terms());
+        f
+    }
+    /// the frames of this message cut into `lens.len() + 1` fragments
+    fn fragments(&self, seq: u64, lens: &[usize]) -> Vec<Vec<u8>> {
+        let terms = self.terms();
+        let mut pieces: Vec<Vec<u8>> = vec![];
+        let mut rest: &[u8] = &terms;
+        for &l in lens {
+            let k = l.min(rest.len());
+            pieces.push(rest[..k].to_vec());
+            rest = &rest[k..];
+        }
+        pieces.push(rest.to_vec());
+        let n = pieces.len() as u64;
+        let mut out = vec![];
+        for (i, p) in pieces.iter().enumerate() {
+            let mut f = vec![131, if i == 0 { 69 } else { 70 }];
+            f.extend_from_slice(&seq.to_be_bytes());
+            f.extend_from_slice(&(n - i as u64).to_be_bytes());
+            if i == 0 {
+                f.extend_from_slice(&self.header());
+            }
+            f.extend_from_slice(p);
+            out.push(f);
+        }
+        out
+    }
+    fn atoms_word(&self) -> String {
+        if self.atoms.is_empty() {
+            "-".to_string()
+        } else {
+            self.atoms.iter().map(|a| if a.is_empty() { ".".to_string() } else { hex(a) }).collect::<Vec<_>>().join(",")
+        }
+    }
+    fn segs_word(&self) -> String {
+        if self.segs.is_empty() { "-".to_string() } else { self.segs.iter().map(|s| s.to_string()).collect::<Vec<_>>().join(",") }
+    }
+    fn pay_word(&self) -> String {
+        self.pay.as_ref().map(|p| hex(p)).unwrap_or("-".to_string())
+    }
+}
+
+fn gen_h_message(r: &mut Rng, big: bool, counts: &mut Vec<String>) -> HMsg {
+    let mut g = HGen { atoms: vec![], allow_long: r.chance(1, 5) };
+    let ctl = g.control(r, counts);
+    let pay = if big {
+        let n = *r.pick(&[1500usize, 70000]);
+        let mut p = vec![104, 2];
+        g.atom(r, &mut p);
+        p.push(109);
+        p.extend_from_slice(&(n as u32).to_be_bytes());
+        p.extend_from_slice(&r.bytes(n));
+        Some(p)
+    } else if r.chance(3, 5) {
+        let mut p = vec![];
+        g.term(r, 0, &mut p);
+        Some(p)
+    } else {
+        None
+    };
+    let long = g.atoms.iter().any(|a| a.len() > 255);
+    let segs: Vec<u8> = if r.chance(1, 2) { vec![0; g.atoms.len()] } else { (0..g.atoms.len()).map(|_| r.below(8) as u8).collect() };
+    HMsg { atoms: g.atoms, segs, long, ctl, pay }
+}
+
+/// random bytes that are never 99 (FLOAT_EXT) or 80 (COMPRESSED): junk that may be glued to other frames' bytes by a
+/// reassembly must not need external-call table entries the per-history table cannot foresee
+fn plain_bytes(r: &mut Rng, n: usize) -> Vec<u8> {
+    r.bytes(n).into_iter().map(|b| if b == 99 { 98 } else if b == 80 { 81 } else { b }).collect()
+}
+
+const JUNK_KINDS: usize = 16;
+
+/// a malformed frame of kind `k`, derived from `valid` (a valid frame of the mode) where the kind needs one
+fn gen_junk(r: &mut Rng, k: usize, mode: Mode, valid: &[u8]) -> (&'static str, Vec<u8>) {
+    match k {
+        0 => ("random", {
+            let n = r.range(1, 24) as usize;
+            plain_bytes(r, n)
+        }),
+        1 => ("random-after-marker", {
+            let n = r.range(0, 12) as usize;
+            let mut v = if mode == Mode::Pt { vec![112, 131] } else { vec![131, 68] };
+            v.extend_from_slice(&plain_bytes(r, n));
+            v
+        }),
+        2 => ("truncated", {
+            let n = r.range(1, (valid.len() - 1).max(1) as u64) as usize;
+            valid[..n].to_vec()
+        }),
+        3 => ("wrong-marker", {
+            let mut v = valid.to_vec();
+            if mode == Mode::Pt {
+                v[0] = *r.pick(&[0u8, 111, 113, 130]);
+            } else {
+                v[1] = *r.pick(&[0u8, 67, 71, 72]);
+            }
+            v
+        }),
+        4 => ("not-a-control-tuple", {
+            let body: &[u8] = *r.pick(&[&[106u8][..], &[97, 1], &[104, 0], &[104, 2, 119, 1, b'a', 97, 1], &[104, 1, 98, 0, 0, 1, 0], &[109, 0, 0, 0, 1, 7]]);
+            let mut v = if mode == Mode::Pt { vec![112, 131] } else { vec![131, 68, 0] };
+            v.extend_from_slice(body);
+            v
+        }),
+        5 => ("bad-unlink-id", {
+            // {35, -1, [], []} and {36, 2^64, [], []}
+            let body: &[u8] = if r.chance(1, 2) { &[104, 4, 97, 35, 98, 255, 255, 255, 255, 106, 106] } else { &[104, 4, 97, 36, 110, 9, 0, 0, 0, 0, 0, 0, 0, 0, 0, 1, 106, 106] };
+            let mut v = if mode == Mode::Pt { vec![112, 131] } else { vec![131, 68, 0] };
+            v.extend_from_slice(body);
+            v
+        }),
+        6 => ("trailing-bytes", {
+            let mut v = valid.to_vec();
+            // make sure a payload is present (pass-through: otherwise the extra bytes would be read as the payload)
+            if mode == Mode::Pt {
+                v = vec![112, 131, 104, 1, 97, 5, 131, 106];
+            }
+            v.extend_from_slice(&[106]);
+            v
+        }),
+        7 => ("unmarked-term", vec![131, 104, 1, 97, 5]),
+        8 => ("frag-header-short", {
+            let n = r.below(17) as usize;
+            let mut v = vec![131, 69];
+            v.extend_from_slice(&plain_bytes(r, n));
+            v
+        }),
+        9 => ("frag-header-count-beyond-frame", {
+            // 20-byte frame whose reference count byte announces more than follows
+            let mut v = vec![131, 69];
+            v.extend_from_slice(&7u64.to_be_bytes());
+            v.extend_from_slice(&1u64.to_be_bytes());
+            v.push(*r.pick(&[1u8, 5, 200, 255]));
+            v
+        }),
+        10 => ("frag-header-id-zero", {
+            let mut v = vec![131, 69];
+            v.extend_from_slice(&9u64.to_be_bytes());
+            v.extend_from_slice(&0u64.to_be_bytes());
+            v.extend_from_slice(&[0, 104, 1, 97, 5]);
+            v
+        }),
+        11 => ("frag-cont-short", {
+            let n = r.below(16) as usize;
+            let mut v = vec![131, 70];
+            v.extend_from_slice(&plain_bytes(r, n));
+            v
+        }),
+        12 => ("stray-continuation", {
+            let mut v = vec![131, 70];
+            v.extend_from_slice(&(0xdead_0000u64 + r.below(1000)).to_be_bytes());
+            v.extend_from_slice(&r.range(0, 3).to_be_bytes());
+            v.extend_from_slice(&plain_bytes(r, 5));
+            v
+        }),
+        13 => ("single-fragment-garbage", {
+            let mut v = vec![131, 69];
+            v.extend_from_slice(&(0xbeef_0000u64 + r.below(1000)).to_be_bytes());
+            v.extend_from_slice(&1u64.to_be_bytes());
+            v.push(0);
+            v.extend_from_slice(&[119, 200, 1, 2]);
+            v
+        }),
+        14 => ("header-refs-missing", {
+            // N = 3 but the frame ends inside the references
+            vec![131, 68, 3, 0x88, 0x08, 0, 1, b'a', 1]
+        }),
+        _ => ("header-atom-not-utf8", vec![131, 68, 1, 0x08, 0, 2, 0xff, 0xfe, 104, 1, 97, 5]),
+    }
+}
+
+fn gen_cuts(r: &mut Rng, total: usize) -> Option<Vec<usize>> {
+    match r.below(4) {
+        0 => None,
+        1 => Some(vec![1, 1, 1, 1, 1, 1]),
+        2 => Some((0..r.range(1, 5)).map(|_| r.range(1, 9) as usize).collect()),
+        _ => Some((0..r.range(1, 4)).map(|_| r.range(1, total.max(2) as u64) as usize).collect()),
+    }
+}
+
+/* ------------------------------------------------------------------------------------------------------------------ */
+
+struct Runner {
+    listener: Arc<TcpListener>,
+    case: usize,
+}
+
+impl Runner {
+    /// run one history, write its T and P lines. `ptag` is the failure class of the oracle line; `lenient` names sequence
+    /// ids whose frames the second (always `gen`) oracle line does not judge.
+    async fn one(&mut self, ctx: &mut Ctx, api: Api, mode: Mode, frames: &[Vec<u8>], cuts: Option<Vec<usize>>, ptag: &str, lenient: &[u64]) {
+        self.case += 1;
+        let Some(oracle) = history_oracle(frames) else {
+            ctx.count("skipped_oracle_too_large");
+            return;
+        };
+        let res = run_history(&self.listener, self.case, api, mode, frames, cuts).await;
+        ctx.count(&format!("histories_{}_{}", api.word(), mode.word()));
+        ctx.add("frames_sent", frames.len() as u64);
+        ctx.add("results_ok", res.iter().filter(|s| s.starts_with("ok~")).count() as u64);
+        ctx.add("results_err", res.iter().filter(|s| *s == "err").count() as u64);
+        let fw = frames_word(frames);
+        let rw = results_word(&res);
+        if res.iter().any(|s| s == "panic") {
+            ctx.fail("c06-panic", &format!("{} {} frames={} results={}", api.word(), mode.word(), fw, rw));
+        }
+        if res.iter().any(|s| s == "timeout" || s == "too-large") {
+            ctx.fail("c06-timeout", &format!("{} {} frames={} results={}", api.word(), mode.word(), fw, rw));
+            return;
+        }
+        if res.iter().any(|s| s == "connect-failed" || s == "header-mode-not-negotiated" || s == "no-read-half") {
+            ctx.fail("c06-connect", &format!("{} {} results={}", api.word(), mode.word(), rw));
+            return;
+        }
+        ctx.tie("gen", &format!("c06recv {} {} {}", api.word(), oracle, fw), &rw);
+        if lenient.is_empty() {
+            ctx.prop(ptag, &format!("c06oracle {} {} {} {} {} -", api.word(), mode.word(), oracle, fw, rw), "ok");
+        } else {
+            let lw = lenient.iter().map(|s| s.to_string()).collect::<Vec<_>>().join(",");
+            ctx.prop(ptag, &format!("c06oracle {} {} {} {} {} -", api.word(), mode.word(), oracle, fw, rw), "ok");
+            ctx.prop("gen", &format!("c06oracle {} {} {} {} {} {}", api.word(), mode.word(), oracle, fw, rw, lw), "ok");
+        }
+    }
+}
+
+fn flush_counts(ctx: &mut Ctx, counts: &mut Vec<String>) {
+    for c in counts.drain(..) {
+        ctx.count(&c);
+    }
+}
+
+pub fn run(ctx: &mut Ctx) {
+    let rt = tokio::runtime::Builder::new_current_thread().enable_all().build().unwrap();
+    rt.block_on(async {
+        let epmd = FakeEpmd::start().await;
+        let listener = Arc::new(listen_as(&epmd, "c06peer").await);
+        let mut run = Runner { listener, case: 0 };
+        let mut counts: Vec<String> = vec![];
+
+        // A. pass-through histories: valid messages of every control kind, ticks anywhere, arbitrary segmentation;
+        //    through `receive_message` and through the read-half copy
+        let n_a = ctx.n(60, 400);
+        for i in 0..n_a {
+            let api = if i % 2 == 0 { Api::Conn } else { Api::Rh };
+            let len = ctx.rng.range(0, 6) as usize;
+            let big = ctx.rng.chance(1, 25);
+            let mut frames: Vec<Vec<u8>> = vec![];
+            for _ in 0..len {
+                if ctx.rng.chance(1, 4) {
+                    frames.push(vec![]);
+                    ctx.count("ticks_sent");
+                    continue;
+                }
+                let (f, cb, pb) = gen_pt_message(&mut ctx.rng, big && frames.is_empty(), &mut counts);
+                ctx.count(if pb.is_some() { "pt_msg_with_payload" } else { "pt_msg_control_only" });
+                ctx.prop("gen", &format!("c06form pt {} {} {}", hex(&cb), pb.as_ref().map(|b| hex(b)).unwrap_or("-".into()), hex(&f)), "ok");
+                frames.push(f);
+            }
+            let total: usize = frames.iter().map(|f| f.len() + 4).sum();
+            let cuts = gen_cuts(&mut ctx.rng, total);
+            run.one(ctx, api, Mode::Pt, &frames, cuts, "gen", &[]).await;
+            flush_counts(ctx, &mut counts);
+        }
+
+        // B. header-mode histories (DIST_HDR_ATOM_CACHE negotiated): whole-frame messages and single-fragment messages
+        //    (fragment id 1), ticks anywhere
+        let n_b = ctx.n(50, 300);
+        for _ in 0..n_b {
+            let len = ctx.rng.range(0, 5) as usize;
+            let big = ctx.rng.chance(1, 25);
+            let mut frames: Vec<Vec<u8>> = vec![];
+            for k in 0..len {
+                if ctx.rng.chance(1, 5) {
+                    frames.push(vec![]);
+                    ctx.count("ticks_sent");
+                    continue;
+                }
+                let m = gen_h_message(&mut ctx.rng, big && frames.is_empty(), &mut counts);
+                if ctx.rng.chance(1, 3) {
+                    let seq = 1000 + k as u64;
+                    let fs = m.fragments(seq, &[]);
+                    ctx.count("hdr_msg_single_fragment");
+                    ctx.prop("gen", &format!("c06form frag {} - {} {} {} {} {} {}", seq, m.atoms_word(), m.segs_word(), m.long as u8, hex(&m.ctl), m.pay_word(), frames_word(&fs)), "ok");
+                    frames.extend(fs);
+                } else {
+                    ctx.count(if m.pay.is_some() { "hdr_msg_with_payload" } else { "hdr_msg_control_only" });
+                    ctx.count(&format!("hdr_atoms_{}", m.atoms.len().min(6)));
+                    if m.long {
+                        ctx.count("hdr_long_atoms");
+                    }
+                    let f = m.frame();
+                    ctx.prop("gen", &format!("c06form hdr {} {} {} {} {} {}", m.atoms_word(), m.segs_word(), m.long as u8, hex(&m.ctl), m.pay_word(), hex(&f)), "ok");
+                    frames.push(f);
+                }
+            }
+            let total: usize = frames.iter().map(|f| f.len() + 4).sum();
+            let cuts = gen_cuts(&mut ctx.rng, total);
+            run.one(ctx, Api::Conn, Mode::Hdr, &frames, cuts, "gen", &[]).await;
+            flush_counts(ctx, &mut counts);
+        }
+
+        // C. junk at every position of short histories, every junk kind, all three settings
+        let settings = [(Api::Conn, Mode::Pt), (Api::Rh, Mode::Pt), (Api::Conn, Mode::Hdr)];
+        let rounds = ctx.n(1, 4);
+        for _ in 0..rounds {
+            for &(api, mode) in &settings {
+                let base_len = ctx.rng.range(2, 3) as usize;
+                let mut base: Vec<Vec<u8>> = vec![];
+                for _ in 0..base_len {
+                    if mode == Mode::Pt {
+                        base.push(gen_pt_message(&mut ctx.rng, false, &mut counts).0);
+                    } else {
+                        let m = gen_h_message(&mut ctx.rng, false, &mut counts);
+                        base.push(if ctx.rng.chance(1, 3) { m.fragments(77, &[]).remove(0) } else { m.frame() });
+                    }
+                }
+                for k in 0..JUNK_KINDS {
+                    for pos in 0..=base.len() {
+                        let sample = base[ctx.rng.below(base.len() as u64) as usize].clone();
+                        let (kind, junk) = gen_junk(&mut ctx.rng, k, mode, &sample);
+                        ctx.count(&format!("junk_{}", kind));
+                        let mut frames = base.clone();
+                        frames.insert(pos, junk);
+                        if ctx.rng.chance(1, 3) {
+                            let p = ctx.rng.below(frames.len() as u64 + 1) as usize;
+                            frames.insert(p, vec![]);
+                        }
+                        let total: usize = frames.iter().map(|f| f.len() + 4).sum();
+                        let cuts = if ctx.rng.chance(1, 3) { gen_cuts(&mut ctx.rng, total) } else { None };
+                        run.one(ctx, api, mode, &frames, cuts, "gen", &[]).await;
+                    }
+                }
+                flush_counts(ctx, &mut counts);
+            }
+        }
+
+        // D. several junk frames in one history (fault sequences), header mode and pass-through
+        let n_d = ctx.n(20, 150);
+        for i in 0..n_d {
+            let (api, mode) = settings[i % 3];
+            let mut frames: Vec<Vec<u8>> = vec![];
+            let mut sample: Vec<u8> = if mode == Mode::Pt { gen_pt_message(&mut ctx.rng, false, &mut counts).0 } else { gen_h_message(&mut ctx.rng, false, &mut counts).frame() };
+            for _ in 0..ctx.rng.range(2, 7) {
+                match ctx.rng.below(5) {
+                    0 => frames.push(vec![]),
+                    1 | 2 => {
+                        let k = ctx.rng.below(JUNK_KINDS as u64) as usize;
+                        let (kind, junk) = gen_junk(&mut ctx.rng, k, mode, &sample);
+                        ctx.count(&format!("junk_{}", kind));
+                        frames.push(junk);
+                    }
+                    _ => {
+                        sample = if mode == Mode::Pt { gen_pt_message(&mut ctx.rng, false, &mut counts).0 } else { gen_h_message(&mut ctx.rng, false, &mut counts).frame() };
+                        frames.push(sample.clone());
+                    }
+                }
+            }
+            let total: usize = frames.iter().map(|f| f.len() + 4).sum();
+            let cuts = gen_cuts(&mut ctx.rng, total);
+            run.one(ctx, api, mode, &frames, cuts, "gen", &[]).await;
+            flush_counts(ctx, &mut counts);
+        }
+
+        // E. messages in two or more fragments. Cuts whose pieces read the same in ascending and in descending fragment id
+        //    (every continuation piece empty) are delivered and belong to class `gen`; every other cut is the recorded
+        //    finding: the assembler concatenates by ascending id, the message comes out scrambled and fails to decode.
+        let n_e = ctx.n(24, 120);
+        for i in 0..n_e {
+            let m = gen_h_message(&mut ctx.rng, i % 12 == 11, &mut counts);
+            let terms_len = m.terms().len();
+            let nfrag = ctx.rng.range(2, 4) as usize;
+            let order_free = i % 4 == 0;
+            let lens: Vec<usize> = if order_free {
+                // the first fragment takes everything, the continuations are empty
+                let mut l = vec![terms_len];
+                l.extend(std::iter::repeat(0).take(nfrag - 2));
+                l
+            } else {
+                (0..nfrag - 1).map(|_| ctx.rng.range(1, (terms_len / nfrag).max(1) as u64) as usize).collect()
+            };
+            let seq = 5000 + i as u64;
+            let fs = m.fragments(seq, &lens);
+            ctx.prop("gen", &format!("c06form frag {} {} {} {} {} {} {} {}", seq, lens.iter().map(|l| l.to_string()).collect::<Vec<_>>().join(","), m.atoms_word(), m.segs_word(), m.long as u8, hex(&m.ctl), m.pay_word(), frames_word(&fs)), "ok");
+            // surrounded by ordinary messages and ticks, which must be delivered whatever happens to the fragmented one
+            let before = gen_h_message(&mut ctx.rng, false, &mut counts).frame();
+            let after = gen_h_message(&mut ctx.rng, false, &mut counts).frame();
+            let mut frames = vec![before];
+            for (j, f) in fs.into_iter().enumerate() {
+                if j > 0 && ctx.rng.chance(1, 3) {
+                    frames.push(vec![]);
+                }
+                frames.push(f);
+            }
+            frames.push(after);
+            let total: usize = frames.iter().map(|f| f.len() + 4).sum();
+            let cuts = gen_cuts(&mut ctx.rng, total);
+            if order_free {
+                ctx.count("multi_fragment_order_free");
+                run.one(ctx, Api::Conn, Mode::Hdr, &frames, cuts, "gen", &[]).await;
+            } else {
+                ctx.count("multi_fragment_scrambled");
+                run.one(ctx, Api::Conn, Mode::Hdr, &frames, cuts, "kf-c06-multi-fragment-order", &[seq]).await;
+            }
+            flush_counts(ctx, &mut counts);
+        }
+
+        // F. the fixed witness of the known finding, replayed on every run: {2, '', pid} ! [] in two fragments
+        {
+            let m = HMsg { atoms: vec![b"a@h".to_vec()], segs: vec![0], long: false, ctl: vec![104, 1, 97, 5], pay: Some(vec![106]) };
+            let fs = m.fragments(1, &[4]);
+            run.one(ctx, Api::Conn, Mode::Hdr, &fs, None, "kf-c06-multi-fragment-order", &[1]).await;
+        }
+    });
+}
